@@ -1,6 +1,6 @@
 (* C02 — no double spend or double resolution. *)
 From Coq Require Import ZArith List Bool.
-From Sia Require Import Prim.Result Prim.Tok Policy.Model Ledger.Types Ledger.Mid Ledger.Validate Ledger.Apply Ledger.Proofs Ledger.Spends Ledger.SpendsV1 Ledger.SpendsSF Ledger.Persist Ledger.Marks1 Ledger.Marks2 Ledger.Marks3 Ledger.Marks4 Ledger.Marks5 Ledger.Marks6 Ledger.Marks7 Ledger.Marks8 Ledger.Marks9 Ledger.Marks10.
+From Sia Require Import Prim.Result Prim.Tok Policy.Model Ledger.Types Ledger.Mid Ledger.Validate Ledger.Apply Ledger.Proofs Ledger.Spends Ledger.SpendsV1 Ledger.SpendsSF Ledger.Persist Ledger.Marks1 Ledger.Marks2 Ledger.Marks3 Ledger.Marks4 Ledger.Marks5 Ledger.Marks6 Ledger.Marks7 Ledger.Marks8 Ledger.Marks9 Ledger.Marks10 Ledger.Persist1.
 Import ListNotations.
 Open Scope Z_scope.
 
@@ -207,3 +207,36 @@ Theorem C02_resolved_never_again : forall H net vt pt se sd (kind_of : id -> kin
     (forall rs, In rs (t2_res t) -> Z.to_nat (p_leaf (rs_parent rs)) <> Z.to_nat lf0).
 Proof. exact resolved_never_again. Qed.
 Print Assumptions C02_resolved_never_again.
+
+(* ---- all eras ---- *)
+(* every accepted block -- v1 transactions, v1 contracts revised, proven or expiring, v2 transactions, any mix -- leaves every
+   spent leaf spent (v1 contract diffs with an assigned leaf are resolutions or point at a leaf the supplement check saw as
+   a live v1 contract) *)
+Theorem C02_spent_persists_all_eras : forall H net vt pt se sd s b s' m,
+  validate_block H net vt pt se sd s b = Ok tt -> apply_block net s b = Ok (s', m) ->
+  forall k, SpentAt (s_leaves s) k -> SpentAt (s_leaves s') k.
+Proof. exact spent_persist_all. Qed.
+Print Assumptions C02_spent_persists_all_eras.
+
+(* hence over any accepted history: a leaf once marked spent is never again accepted as the parent of a v2 siacoin input,
+   siafund input, revision or resolution *)
+Theorem C02_history_no_reuse : forall H net vt pt se sd s bs s' k, chain_all H net vt pt se sd s bs s' -> SpentAt (s_leaves s) k ->
+  forall m t, validate_txn2 H net vt pt se sd s' m t = Ok tt ->
+  (forall i, In i (t2_sci t) -> p_leaf (i2_parent i) <> UNASSIGNED -> Z.to_nat (p_leaf (i2_parent i)) <> k) /\
+  (forall i, In i (t2_sfi t) -> p_leaf (f2_parent i) <> UNASSIGNED -> Z.to_nat (p_leaf (f2_parent i)) <> k) /\
+  (forall rv, In rv (t2_rev t) -> Z.to_nat (p_leaf (r2_parent rv)) <> k) /\
+  (forall rs, In rs (t2_res t) -> Z.to_nat (p_leaf (rs_parent rs)) <> k).
+Proof. exact chain_all_no_reuse. Qed.
+Print Assumptions C02_history_no_reuse.
+
+(* ... nor as a supplement element of a block with v1 transactions (v1 siacoin or siafund parent, revised, proven or
+   expiring v1 contract) *)
+Theorem C02_history_no_reuse_v1 : forall H net vt pt se sd s bs s' k, chain_all H net vt pt se sd s bs s' -> SpentAt (s_leaves s) k ->
+  forall b, validate_block H net vt pt se sd s' b = Ok tt ->
+  (forall u p, In u (b_supp b) -> In p (u_sci u) -> Z.to_nat (p_leaf p) <> k) /\
+  (forall u p, In u (b_supp b) -> In p (u_sfi u) -> Z.to_nat (p_leaf p) <> k) /\
+  (forall u p, In u (b_supp b) -> In p (u_rev u) -> Z.to_nat (p_leaf p) <> k) /\
+  (forall u x, In u (b_supp b) -> In x (u_sp u) -> Z.to_nat (p_leaf (ss_fc x)) <> k) /\
+  (forall p, In p (b_expiring b) -> Z.to_nat (p_leaf (fst p)) <> k).
+Proof. exact chain_all_no_reuse_v1. Qed.
+Print Assumptions C02_history_no_reuse_v1.
